@@ -20,7 +20,6 @@ use serde_json::{Value, json};
 use std::collections::HashMap;
 use std::io::Write as _;
 use std::sync::{Arc, Mutex};
-use surf_n_term::decoder::{Decoder, TTYCommandDecoder};
 use surf_n_term::render::CellKind;
 use surf_n_term::surface::{Shape, Surface, SurfaceMut, SurfaceOwned};
 use surf_n_term::view::{BoxConstraint, Text, Tree, View, ViewContext, ViewLayoutStore};
@@ -37,13 +36,23 @@ const NARROW: [char; 8] = ['a', 'b', 'c', 'x', '|', '.', 'é', 'Ж'];
 const WIDE: [char; 3] = ['世', '界', '😀'];
 const ZERO: [char; 2] = ['\u{0301}', '\u{200b}'];
 
-/// unicode width of a character as the implementation sees it (`Cell::size` of a character cell, i.e.
-/// `unicode-width`): the widths are an input of the property, not part of it — model and oracles use the
-/// same numbers, so a bump of the `unicode-width` crate changes nothing here
+/// unicode width of a character. For the alphabet of the generators (ASCII, `é`, `Ж`, three wide and two
+/// zero width characters: fixed by the Unicode standard) an independent table, so that model requests and
+/// oracle expectations do not inherit anything from `Cell::size`. Only for other characters (they arise when
+/// random damage of a byte stream happens to spell one) the implementation's `unicode-width` is asked.
 fn width_of(c: char) -> usize {
+    if WIDE.contains(&c) {
+        return 2;
+    }
+    if ZERO.contains(&c) || (c as u32) < 0x20 || c as u32 == 0x7f {
+        return 0;
+    }
+    if (c as u32) < 0x7f || NARROW.contains(&c) {
+        return 1;
+    }
     static CTX: std::sync::OnceLock<ViewContext> = std::sync::OnceLock::new();
     let ctx = CTX.get_or_init(|| make_ctx(true, (1, 1)));
-    Cell::new_char(Face::default(), c).size(ctx).width
+    Cell::new_char(Face { fg: None, bg: None, attrs: attrs_of(0) }, c).size(ctx).width
 }
 
 // ---------------------------------------------------------------------------------------------
@@ -64,30 +73,19 @@ fn rgba_num(c: RGBA) -> u32 {
     let [r, g, b, a] = c.to_rgba();
     ((r as u32) << 24) | ((g as u32) << 16) | ((b as u32) << 8) | a as u32
 }
+// `FaceAttrs` is a struct around one `u16` (underline style in the low three bits, then bold, italic, blink,
+// reverse, strike): built from and read back as the raw word, without the crate's operators, constants,
+// accessors or comparison impls
+const _: () = assert!(std::mem::size_of::<FaceAttrs>() == 2);
 fn attrs_of(bits: u16) -> FaceAttrs {
-    let mut a = FaceAttrs::EMPTY;
-    if bits & 1 != 0 {
-        a = a | FaceAttrs::UNDERLINE;
-    }
-    if bits & 8 != 0 {
-        a = a | FaceAttrs::BOLD;
-    }
-    if bits & 16 != 0 {
-        a = a | FaceAttrs::ITALIC;
-    }
-    a
+    unsafe { std::mem::transmute::<u16, FaceAttrs>(bits) }
 }
 fn attrs_num(a: FaceAttrs) -> u16 {
-    for bits in [0u16, 1, 8, 9, 16, 17, 24, 25] {
-        if attrs_of(bits) == a {
-            return bits;
-        }
-    }
-    9999
+    unsafe { std::mem::transmute::<FaceAttrs, u16>(a) }
 }
 impl F {
     fn face(&self) -> Face {
-        Face::new(self.fg.map(rgba), self.bg.map(rgba), attrs_of(self.attrs))
+        Face { fg: self.fg.map(rgba), bg: self.bg.map(rgba), attrs: attrs_of(self.attrs) }
     }
     fn of(f: &Face) -> F {
         F { fg: f.fg.map(rgba_num), bg: f.bg.map(rgba_num), attrs: attrs_num(f.attrs) }
@@ -196,8 +194,13 @@ fn image_of(ph: usize, pw: usize) -> Image {
     let m = g.get_or_insert_with(HashMap::new);
     m.entry((ph, pw))
         .or_insert_with(|| {
-            let data: Arc<[RGBA]> = (0..ph * pw).map(|i| RGBA::new(i as u8, 7, 7, 255)).collect();
-            Image::from_parts(data, Shape::from(Size::new(ph, pw)))
+            let data: Arc<[RGBA]> = (0..(ph + 1) * (pw + 2)).map(|i| RGBA::new(i as u8, 7, 7, 255)).collect();
+            if (ph + pw) % 2 == 0 || ph == 0 || pw == 0 {
+                Image::from_parts(data, Shape::from(Size { height: ph, width: pw }))
+            } else {
+                // a crop of a larger image: the pixel size is the size of the window
+                Image::from_parts(data, Shape::from(Size { height: ph + 1, width: pw + 2 })).crop(1..ph + 1, 1..pw + 1)
+            }
         })
         .clone()
 }
@@ -226,11 +229,19 @@ fn kind_of(cell: &Cell) -> K {
         CellKind::Glyph(g) => K::Gl(g.size().height, g.size().width, g.fallback_str().to_string()),
     }
 }
-fn cell_tok(cell: &Cell, sent: &Cell) -> String {
-    if cell == sent {
-        return "#".into();
-    }
+/// kind and face of a cell from its raw pieces; cells are compared through this (never through the
+/// `PartialEq` impls of `Cell` / `Face` / `Glyph` / `Image`)
+fn full_tok(cell: &Cell) -> String {
     format!("{}@{}", kind_tok(&kind_of(cell)), F::of(&cell.face()).tok())
+}
+fn sentinel_tok() -> String {
+    format!("c35@{}", F { fg: Some(SENT_FG), bg: Some(SENT_BG), attrs: 0 }.tok())
+}
+fn is_sentinel(cell: &Cell) -> bool {
+    full_tok(cell) == sentinel_tok()
+}
+fn cell_tok(cell: &Cell, _sent: &Cell) -> String {
+    if is_sentinel(cell) { "#".into() } else { full_tok(cell) }
 }
 fn canvas_tok(data: &[Cell]) -> String {
     let sent = sentinel();
@@ -419,14 +430,13 @@ fn on_view(h: usize, w: usize, steps: &[Step], k: &mut dyn for<'b> FnMut(DynMut<
 }
 /// first canvas cell outside of the window that is not the sentinel any more
 fn outside_changed(canvas: &[Cell], win: &Mat) -> Option<usize> {
-    let sent = sentinel();
     let mut inside = vec![false; canvas.len()];
     for row in win {
         for &i in row {
             inside[i] = true;
         }
     }
-    (0..canvas.len()).find(|&i| !inside[i] && canvas[i] != sent)
+    (0..canvas.len()).find(|&i| !inside[i] && !is_sentinel(&canvas[i]))
 }
 
 // ---------------------------------------------------------------------------------------------
@@ -458,6 +468,91 @@ struct Case {
     pos: (usize, usize),
     /// text: the view is larger than the reported size (the layout clips it)
     loose_view: bool,
+    /// script: calls made one after the other on ONE writer
+    script: Vec<SO>,
+}
+
+/// one call on a `TerminalWriter`
+#[derive(Clone, Debug, PartialEq)]
+enum SO {
+    Put(C),
+    Chr(char),
+    Gl(usize, usize, String),
+    Img(usize, usize),
+    Text(Vec<C>),
+    Fmt(Option<F>, String),
+    Write(Vec<u8>),
+    Utf8(Vec<u8>),
+    Tty(Vec<u8>),
+    Face(F),
+    Wraps(bool),
+    Cursor(usize, usize),
+}
+impl SO {
+    fn tok(&self) -> String {
+        match self {
+            SO::Put(c) => format!("P{}", c.tok()),
+            SO::Chr(c) => format!("C{}", *c as u32),
+            SO::Gl(h, w, fb) => format!("G{}", &kind_tok(&K::Gl(*h, *w, fb.clone()))[1..]),
+            SO::Img(h, w) => format!("I{h}x{w}"),
+            SO::Text(cs) => format!("X{}", if cs.is_empty() { "-".into() } else { cs.iter().map(|c| c.tok()).collect::<Vec<_>>().join(";") }),
+            SO::Fmt(f, t) => format!("M{};{}", f.map(|f| f.tok()).unwrap_or("-".into()), hex(t.as_bytes())),
+            SO::Write(b) => format!("W{}", hex(b)),
+            SO::Utf8(b) => format!("U{}", hex(b)),
+            SO::Tty(b) => format!("T{}", hex(b)),
+            SO::Face(f) => format!("F{}", f.tok()),
+            SO::Wraps(b) => format!("R{}", *b as u8),
+            SO::Cursor(r, c) => format!("S{r},{c}"),
+        }
+    }
+    fn parse(s: &str) -> Option<SO> {
+        let unhex = |h: &str| -> Option<Vec<u8>> {
+            if h == "-" { Some(vec![]) } else { (0..h.len() / 2).map(|i| u8::from_str_radix(&h[2 * i..2 * i + 2], 16).ok()).collect() }
+        };
+        let (t, r) = s.split_at(1);
+        Some(match t {
+            "P" => SO::Put(C::parse(r)?),
+            "C" => SO::Chr(char::from_u32(r.parse().ok()?)?),
+            "G" => match parse_kind(&format!("g{r}"))? {
+                K::Gl(h, w, fb) => SO::Gl(h, w, fb),
+                _ => return None,
+            },
+            "I" => {
+                let (h, w) = parse_dims(r)?;
+                SO::Img(h, w)
+            }
+            "X" => SO::Text(if r == "-" { vec![] } else { r.split(';').map(C::parse).collect::<Option<Vec<_>>>()? }),
+            "M" => {
+                let (f, h) = r.split_once(';')?;
+                SO::Fmt(if f == "-" { None } else { Some(F::parse(f)?) }, String::from_utf8(unhex(h)?).ok()?)
+            }
+            "W" => SO::Write(unhex(r)?),
+            "U" => SO::Utf8(unhex(r)?),
+            "T" => SO::Tty(unhex(r)?),
+            "F" => SO::Face(F::parse(r)?),
+            "R" => SO::Wraps(r == "1"),
+            "S" => {
+                let (a, b) = r.split_once(',')?;
+                SO::Cursor(a.parse().ok()?, b.parse().ok()?)
+            }
+            _ => return None,
+        })
+    }
+    fn chars(&self) -> Vec<char> {
+        let lossy = |b: &[u8]| String::from_utf8_lossy(b).chars().filter(|c| *c != '\u{fffd}').collect::<Vec<char>>();
+        match self {
+            SO::Put(c) => cells_chars(std::slice::from_ref(c)),
+            SO::Chr(c) => vec![*c],
+            SO::Gl(_, _, fb) => fb.chars().collect(),
+            SO::Text(cs) => cells_chars(cs),
+            SO::Fmt(_, t) => t.chars().collect(),
+            SO::Write(b) | SO::Utf8(b) | SO::Tty(b) => lossy(b),
+            _ => vec![],
+        }
+    }
+}
+fn script_tok(ops: &[SO]) -> String {
+    ops.iter().map(|o| o.tok()).collect::<Vec<_>>().join("|")
 }
 impl Case {
     fn blank(op: &str) -> Case {
@@ -481,6 +576,7 @@ impl Case {
             min_w: 0,
             pos: (0, 0),
             loose_view: false,
+            script: vec![],
         }
     }
     fn to_json(&self) -> Value {
@@ -491,6 +587,7 @@ impl Case {
             "text": String::from_utf8_lossy(&self.bytes), "parts": self.parts, "mode": self.mode,
             "max_h": self.max_h.to_string(), "max_w": self.max_w.to_string(), "loose_view": self.loose_view,
             "min_h": self.min_h.to_string(), "min_w": self.min_w.to_string(), "pos": [self.pos.0, self.pos.1],
+            "script": script_tok(&self.script),
         })
     }
     fn from_json(v: &Value) -> Option<Case> {
@@ -518,6 +615,7 @@ impl Case {
             min_h: v["min_h"].as_str().and_then(|x| x.parse().ok()).unwrap_or(0),
             min_w: v["min_w"].as_str().and_then(|x| x.parse().ok()).unwrap_or(0),
             pos: (v["pos"][0].as_u64().unwrap_or(0) as usize, v["pos"][1].as_u64().unwrap_or(0) as usize),
+            script: v["script"].as_str().filter(|x| !x.is_empty()).map(|x| x.split('|').filter_map(SO::parse).collect()).unwrap_or_default(),
             loose_view: v["loose_view"].as_bool()?,
         })
     }
@@ -620,6 +718,43 @@ fn nowrap_kept(items: &[K], glyphs: bool, ppc: (usize, usize), w: usize) -> Vec<
     out
 }
 
+/// height a text needs at available width `w`: reference layout written from the property (newline ends a
+/// row, tab to the next multiple of 8 clipped to `w`, a cell that does not fit goes to the next row when
+/// wrapping and is dropped otherwise)
+fn ref_height(items: &[K], glyphs: bool, ppc: (usize, usize), w: usize, wraps: bool) -> usize {
+    let (mut row, mut col, mut h) = (0usize, 0usize, 0usize);
+    for k in items {
+        match k {
+            K::Ch('\n') => {
+                h = h.max(row + 1);
+                row += 1;
+                col = 0;
+            }
+            K::Ch('\r') => col = 0,
+            K::Ch('\t') => {
+                if col < w {
+                    col = (col / 8 + 1).saturating_mul(8).min(w);
+                }
+            }
+            k => {
+                if !printable(k, glyphs, ppc) {
+                    continue;
+                }
+                let (ih, iw) = item_size(k, glyphs, ppc);
+                if col.checked_add(iw).is_some_and(|e| e <= w) {
+                    col += iw;
+                    h = h.max(row.saturating_add(ih));
+                } else if wraps {
+                    row += 1;
+                    col = iw.min(w);
+                    h = h.max(row.saturating_add(ih));
+                }
+            }
+        }
+    }
+    h
+}
+
 // ---------------------------------------------------------------------------------------------
 // running the cases
 // ---------------------------------------------------------------------------------------------
@@ -644,8 +779,8 @@ fn join_s(v: &[String]) -> String {
 fn real_layout(ctx: &ViewContext, cells: &[C], max_w: usize, wraps: bool) -> Result<(Size, Position, Vec<Option<Position>>), ()> {
     let real: Vec<Cell> = cells.iter().map(real_cell).collect();
     guarded(|| {
-        let mut size = Size::empty();
-        let mut cursor = Position::origin();
+        let mut size = Size { height: 0, width: 0 };
+        let mut cursor = Position { row: 0, col: 0 };
         let mut ps = Vec::new();
         for c in &real {
             ps.push(c.layout(ctx, max_w, wraps, &mut size, &mut cursor));
@@ -742,6 +877,7 @@ impl Ctx {
             "write" => self.eval_write(case),
             "tty" => self.eval_tty(case),
             "text" | "str" => self.eval_text(case),
+            "script" => self.eval_script(case),
             _ => {}
         }
     }
@@ -846,7 +982,7 @@ impl Ctx {
             on_view(case.h, case.w, &case.steps, &mut |mut s: DynMut<'_>| {
                 // the backing slice is read between the calls while the writer holds the view
                 let (ptr, len) = (s.data().as_ptr(), s.data().len());
-                let snap = || unsafe { std::slice::from_raw_parts(ptr, len) }.to_vec();
+                let snap = || unsafe { std::slice::from_raw_parts(ptr, len) }.iter().map(full_tok).collect::<Vec<String>>();
                 let mut writer = TerminalWriter::new(ctx.clone(), &mut *s);
                 writer.set_wraps(case.wraps);
                 writer.set_face(case.wface.face());
@@ -880,6 +1016,117 @@ impl Ctx {
             Ok(canvas) => {
                 if let Some(i) = outside_changed(&canvas, &win) {
                     self.fail("put_cell modified a cell outside of the surface the writer was given", case, json!("sentinel"), json!(format!("canvas offset {i}: {}", cell_tok(&canvas[i], &sentinel()))));
+                }
+            }
+        }
+    }
+
+    /// a sequence of calls on ONE writer: every entry point (put_cell, put_char, put_glyph, put_image, put_text,
+    /// put_fmt, the writer's own `io::Write` whose decoder lives as long as the writer — also after a write
+    /// that failed or ended inside a character —, fresh `utf8_writer()` / `tty_writer()` adaptors, set_face,
+    /// set_wraps, set_cursor in between)
+    fn eval_script(&mut self, case: &Case) {
+        let ctx = case.ctx();
+        // characters: those of every call by itself, and those the writer's own decoder assembles across its
+        // writes (a character may be cut between two `write` calls; an invalid byte drops the rest of a call)
+        let mut all_chars: Vec<char> = case.script.iter().flat_map(|o| o.chars()).collect();
+        let mut pending: Vec<u8> = Vec::new();
+        for op in &case.script {
+            if let SO::Write(bytes) = op {
+                for b in bytes {
+                    pending.push(*b);
+                    match std::str::from_utf8(&pending) {
+                        Ok(t) => {
+                            all_chars.extend(t.chars());
+                            pending.clear();
+                        }
+                        Err(e) if e.error_len().is_none() => {}
+                        Err(_) => {
+                            pending.clear();
+                            break;
+                        }
+                    }
+                }
+            }
+        }
+        let widths = widths_tok(all_chars.into_iter());
+        let req = format!(
+            "c09 script {} {} {} {} {} {} {} {}",
+            case.h, case.w, chain_tok(&case.steps), case.ctx_tok(), case.wraps as u8, case.wface.tok(), widths, script_tok(&case.script)
+        );
+        let mut trace: Vec<String> = Vec::new();
+        let mut end_cur = (0, 0);
+        let res = guarded(|| {
+            on_view(case.h, case.w, &case.steps, &mut |mut s: DynMut<'_>| {
+                let mut writer = TerminalWriter::new(ctx.clone(), &mut *s);
+                writer.set_wraps(case.wraps);
+                writer.set_face(case.wface.face());
+                for op in &case.script {
+                    let r: String = match op {
+                        SO::Put(c) => if writer.put_cell(real_cell(c)) { "t" } else { "f" }.into(),
+                        SO::Chr(c) => if writer.put_char(*c) { "t" } else { "f" }.into(),
+                        SO::Gl(h, w, fb) => if writer.put_glyph(glyph_of(*h, *w, fb)) { "t" } else { "f" }.into(),
+                        SO::Img(h, w) => if writer.put_image(image_of(*h, *w)) { "t" } else { "f" }.into(),
+                        SO::Text(cs) => {
+                            let mut text = Text::new();
+                            for c in cs {
+                                text.put_cell(real_cell(c));
+                            }
+                            writer.put_text(&text);
+                            "-".into()
+                        }
+                        SO::Fmt(f, t) => {
+                            writer.put_fmt(t.as_str(), f.map(|f| f.face()));
+                            "-".into()
+                        }
+                        SO::Write(b) => match writer.write(b) {
+                            Ok(n) if n == b.len() => "ok".into(),
+                            Ok(n) => format!("short{n}"),
+                            Err(_) => "err".into(),
+                        },
+                        SO::Utf8(b) => match (&mut writer).utf8_writer().write(b) {
+                            Ok(n) if n == b.len() => "ok".into(),
+                            Ok(n) => format!("short{n}"),
+                            Err(_) => "err".into(),
+                        },
+                        SO::Tty(b) => match (&mut writer).tty_writer().write(b) {
+                            Ok(n) if n == b.len() => "ok".into(),
+                            Ok(n) => format!("short{n}"),
+                            Err(_) => "err".into(),
+                        },
+                        SO::Face(f) => {
+                            writer.set_face(f.face());
+                            "-".into()
+                        }
+                        SO::Wraps(b) => {
+                            writer.set_wraps(*b);
+                            "-".into()
+                        }
+                        SO::Cursor(r, c) => {
+                            writer.set_cursor(Position { row: *r, col: *c });
+                            "-".into()
+                        }
+                    };
+                    let cur = writer.cursor();
+                    trace.push(format!("{r}{}.{}", cur.row, cur.col));
+                }
+                let cur = writer.cursor();
+                end_cur = (cur.row, cur.col);
+            })
+        });
+        let ans = match &res {
+            Err(()) => "panic".to_string(),
+            Ok(canvas) => format!("{} cur={}.{} {}", join_s(&trace), end_cur.0, end_cur.1, canvas_tok(canvas)),
+        };
+        self.out.corr(&req, &ans);
+        let win = window(case.h, case.w, &case.steps);
+        self.out.case(&format!("{req} {ans}"), case.script.len() >= 3);
+        self.out.hist(&format!("script/{}", view_class(&case.steps)));
+        match res {
+            Err(()) => self.fail("a call on the writer panics", case, json!("no panic"), json!("panic")),
+            Ok(canvas) => {
+                if let Some(i) = outside_changed(&canvas, &win) {
+                    self.fail("a call on the writer modified a cell outside of the surface it was given", case, json!("sentinel"), json!(format!("canvas offset {i}: {}", full_tok(&canvas[i]))));
                 }
             }
         }
@@ -993,31 +1240,8 @@ impl Ctx {
 
     fn eval_tty(&mut self, case: &Case) {
         let win = window(case.h, case.w, &case.steps);
-        // correspondence: the commands the library's own decoder reads from the whole stream, applied by the model
-        let cmds = guarded(|| {
-            let mut dec = TTYCommandDecoder::new();
-            let mut out = Vec::new();
-            let _ = dec.decode_into(std::io::Cursor::new(&case.bytes[..]), &mut out);
-            out
-        });
-        let mut chars = Vec::new();
-        let mut toks = Vec::new();
-        if let Ok(cmds) = &cmds {
-            let mut face = case.wface.face();
-            for c in cmds {
-                match c {
-                    TerminalCommand::Char(ch) => {
-                        chars.push(*ch);
-                        toks.push(format!("c{}", *ch as u32));
-                    }
-                    TerminalCommand::FaceModify(m) => {
-                        face = m.apply(face);
-                        toks.push(format!("f{}", F::of(&face).tok()));
-                    }
-                    _ => toks.push("o".into()),
-                }
-            }
-        }
+        // (the model reads the bytes itself: `c09 ttys`; nothing of the request comes from the crate's decoder)
+        let chars: Vec<char> = String::from_utf8_lossy(&case.bytes).chars().filter(|c| *c != '\u{fffd}').collect();
         let mut first: Option<(Vec<usize>, String)> = None;
         for (i, part) in case.parts.iter().enumerate() {
             let chunks = split(&case.bytes, part);
@@ -1041,14 +1265,6 @@ impl Ctx {
                     Ok((rs, _, _)) => format!("{} {}", rs.iter().map(|r| if *r { "ok" } else { "err" }).collect::<Vec<_>>().join(","), ans),
                 };
                 self.out.corr(&req, &full);
-            }
-            if i == 0 && cmds.is_ok() {
-                let req = format!(
-                    "c09 cmds {} {} {} {} {} {} {} {}",
-                    case.h, case.w, chain_tok(&case.steps), case.ctx_tok(), case.wraps as u8, case.wface.tok(), widths_tok(chars.iter().cloned()),
-                    if toks.is_empty() { "-".into() } else { toks.join(",") }
-                );
-                self.out.corr(&req, &ans);
             }
             self.out.case(&format!("{} {:?} {}", hex(&case.bytes), part, ans), part.len() >= 2 && case.bytes.len() >= 2);
             match &res {
@@ -1089,18 +1305,11 @@ impl Ctx {
         let string: String = case.cells.iter().filter_map(|c| if let K::Ch(ch) = c.k { Some(ch) } else { None }).collect();
         let ct = case.ct();
         let mut size = (0, 0);
-        let mut tracked_h = 0;
+        let tracked_h = ref_height(&expand(&case.cells, case.glyphs), case.glyphs, case.ppc, case.max_w, case.wraps || is_str);
         let res = guarded(|| {
             let text = build_text(case);
             let view: &dyn View = if is_str { &string } else { &text };
             let mut store = ViewLayoutStore::new();
-            // height the text needs under this width (precondition of the completeness oracle)
-            {
-                let mut store2 = ViewLayoutStore::new();
-                if let Ok(l) = view.layout_new(&ctx, BoxConstraint::loose(Size::new(100_000, case.max_w)), &mut store2) {
-                    tracked_h = l.size().height;
-                }
-            }
             let mut layout = view.layout_new(&ctx, ct, &mut store).map_err(|e| format!("layout: {e}"))?;
             size = (layout.size().height, layout.size().width);
             layout.set_position(Position::new(case.pos.0, case.pos.1));
@@ -1165,7 +1374,7 @@ impl Ctx {
         for (r, row) in win.iter().enumerate() {
             for (c, &i) in row.iter().enumerate() {
                 let inside = r >= case.pos.0 && r < case.pos.0 + size.0 && c >= case.pos.1 && c < case.pos.1 + size.1;
-                if !inside && canvas[i] != sentinel() {
+                if !inside && !is_sentinel(&canvas[i]) {
                     self.fail("rendering a text modified a cell outside of the rectangle of its layout", case, json!("sentinel"), json!(format!("view position ({r},{c})")));
                     return;
                 }
@@ -1728,6 +1937,94 @@ fn main() {
         }
     }
 
+    // sequences of calls on one writer
+    for i in 0..500 * scale {
+        let mut c = Case::blank("script");
+        c.ppc = g.ppc();
+        c.glyphs = g.rng.chance(1, 2);
+        c.wraps = g.rng.chance(2, 3);
+        c.wface = g.face();
+        let vw = 1 + g.rng.below(12) as usize;
+        let vh = 1 + g.rng.below(5) as usize;
+        let (h, w, steps) = g.view_of(vh, vw);
+        c.h = h;
+        c.w = w;
+        c.steps = steps;
+        // a byte stream cut into the writes of the writer's own `io::Write`, other calls in between
+        let sn = 2 + g.rng.below(10) as usize;
+        let stream = g.utf8_stream(sn, i % 3 == 0);
+        let part = g.partitions(stream.len(), 0, 1).get(2).cloned().unwrap_or(vec![stream.len()]);
+        let mut pieces: Vec<Vec<u8>> = split(&stream, &part);
+        pieces.reverse();
+        let n = 3 + g.rng.below(10) as usize;
+        for _ in 0..n {
+            let k = g.rng.below(16);
+            let len = 1 + g.rng.below(4) as usize;
+            let bad = g.rng.chance(1, 4);
+            let op = match k {
+                0..=3 => match pieces.pop() {
+                    Some(p) => SO::Write(p),
+                    None => SO::Write(g.utf8_stream(len, bad)),
+                },
+                4 | 5 => SO::Put(g.cell(true, c.ppc)),
+                6 => SO::Chr(g.plain_char()),
+                7 => match g.cell(true, c.ppc).k {
+                    K::Gl(h, w, fb) => SO::Gl(h, w, fb),
+                    K::Img(h, w) => SO::Img(h, w),
+                    K::Ch(ch) => SO::Chr(ch),
+                },
+                8 => SO::Text(g.cells(len, true, c.ppc)),
+                9 => {
+                    let f = if bad { Some(g.face()) } else { None };
+                    SO::Fmt(f, String::from_utf8_lossy(&g.utf8_stream(len, false)).to_string())
+                }
+                10 | 11 => SO::Utf8(g.utf8_stream(len, bad)),
+                12 => SO::Tty(g.tty_stream(len)),
+                13 => SO::Face(g.face()),
+                14 => SO::Wraps(bad),
+                _ => SO::Cursor(g.rng.below(vh as u64 + 2) as usize, g.rng.below(vw as u64 + 2) as usize),
+            };
+            c.script.push(op);
+        }
+        if i % 250 == 0 {
+            ctx.out.sample(c.to_json());
+        }
+        ctx.run(&c, &mut scratch);
+    }
+
+    // a `Text` as the sink of `tty_writer()`: the cells collected (faces included) do not depend on the partition
+    for _ in 0..40 * scale {
+        let tl = 1 + g.rng.below(6) as usize;
+        let bytes = g.tty_stream(tl);
+        let parts = g.partitions(bytes.len(), 8, 10);
+        let mut first: Option<Vec<String>> = None;
+        for part in &parts {
+            let mut text = Text::new();
+            {
+                let mut tw = (&mut text).tty_writer();
+                for chunk in split(&bytes, part) {
+                    let _ = tw.write(&chunk);
+                }
+            }
+            let cells: Vec<String> = text.cells().iter().map(full_tok).collect();
+            ctx.out.case(&format!("ttytextsink {} {:?}", hex(&bytes), part), part.len() >= 2);
+            match &first {
+                None => first = Some(cells),
+                Some(f) => {
+                    if *f != cells {
+                        let mut c = Case::blank("tty");
+                        c.mode = "y".into();
+                        c.bytes = bytes.clone();
+                        c.parts = vec![parts[0].clone(), part.clone()];
+                        ctx.out.fail("cells collected by a Text depend on how the written bytes were split across write calls", c.to_json(), json!(f), json!(cells));
+                        break;
+                    }
+                }
+            }
+        }
+        ctx.out.hist("ttytextsink");
+    }
+
     // a `Text` as the sink of `utf8_writer()`: the cells collected do not depend on the partition
     for n_case in 0..60 * scale {
         let n = 1 + g.rng.below(8) as usize;
@@ -1739,7 +2036,7 @@ fn main() {
             let s = String::from_utf8_lossy(&bytes).to_string();
             widths_tok(s.chars().filter(|c| *c != '\u{fffd}'))
         };
-        let mut first: Option<Vec<Cell>> = None;
+        let mut first: Option<Vec<String>> = None;
         for (i, part) in parts.iter().enumerate() {
             let chunks = split(&bytes, part);
             let mut text = Text::new();
@@ -1756,10 +2053,9 @@ fn main() {
                     }
                 }
             }
-            let cells = text.cells().to_vec();
+            let cells: Vec<String> = text.cells().iter().map(full_tok).collect();
             if i < 2 || i + 1 == parts.len() {
-                let sent = sentinel();
-                let shown = if cells.is_empty() { "-".to_string() } else { cells.iter().map(|c| cell_tok(c, &sent)).collect::<Vec<_>>().join(",") };
+                let shown = if cells.is_empty() { "-".to_string() } else { cells.join(",") };
                 ctx.out.corr(
                     &format!("c09 tsink {} {} {} {}", widths, wraps as u8, tface.tok(), chunks_tok(&chunks)),
                     &format!("{} {}", results.iter().map(|r| if *r { "ok" } else { "err" }).collect::<Vec<_>>().join(","), shown),
